@@ -97,6 +97,13 @@ def run(tier, replay=None):
         if m and m.group(2) != "0":
             base = "inflate-use%s-history0" % m.group(1)
             pairs.append(("inflate-history-independent|%s: %s" % (USE[int(m.group(1))], HIST[m.group(2)]), obs[base], obs[name], {"pair": [base, name]}))
+    # the same compression with the context at 4096 addresses: any output different from the first address's is paired with it
+    for name in sorted(obs):
+        m = re.match(r"address-level(\d)-mode(\d)-first", name)
+        if m:
+            others = [n2 for n2 in obs if n2.startswith("address-level%s-mode%s-other" % (m.group(1), m.group(2)))]
+            for n2 in others or [name]:
+                pairs.append(("address-independent|level %s, %s: output with the context at another address" % (m.group(1), ["one-shot", "streaming"][int(m.group(2))]), obs[name][1:], obs[n2][1:], {"pair": [name, n2]}))
     SH = {"1": "garbage-filled context and level buffer before init", "2": "re-initialised after a one-shot call on incompressible data (stored fallback)", "3": "re-initialised after a one-shot call on compressible data",
           "4": "re-initialised after a one-shot call on small-alphabet data", "5": "after a one-shot call that overflowed its output", "6": "after a one-shot call and isal_deflate_reset", "7": "after a one-shot call and isal_deflate_init"}
     for name in sorted(obs):
